@@ -2,7 +2,7 @@
 Helper lemmas for C06: the invariant along whole histories (`run_inv`), the configuration and
 the ghost set of cancelled proposals along a history.
 -/
-import PvProofs.Lemmas.SancGov
+import PvProofs.Lemmas.SancRoutes
 
 namespace PvProofs.Sanc
 open PvModel PvModel.Sanc PvModel.Sanc.Spec
@@ -119,6 +119,24 @@ theorem applyOp_inv {s s' : State} {op : Op} (h : Inv s) (hs : applyOp s op = .o
     simp only [Except.ok.injEq] at hs
     subst hs
     exact ⟨inv_ledger _ h, rfl, fun _ => rfl⟩
+  | grant a b lim =>
+    have r := (applyOp_route (op := .grant a b lim) rfl hs).1
+    exact ⟨inv_of_sameGov h r, r.cfg, fun _ => r.cancelled⟩
+  | mxfer admin frm to d x =>
+    have r := (applyOp_route (op := .mxfer admin frm to d x) rfl hs).1
+    exact ⟨inv_of_sameGov h r, r.cfg, fun _ => r.cancelled⟩
+  | mwd admin to d amt =>
+    have r := (applyOp_route (op := .mwd admin to d amt) rfl hs).1
+    exact ⟨inv_of_sameGov h r, r.cfg, fun _ => r.cancelled⟩
+  | mktwd admin to amt =>
+    have r := (applyOp_route (op := .mktwd admin to amt) rfl hs).1
+    exact ⟨inv_of_sameGov h r, r.cfg, fun _ => r.cancelled⟩
+  | pay src tgt sa ta =>
+    have r := (applyOp_route (op := .pay src tgt sa ta) rfl hs).1
+    exact ⟨inv_of_sameGov h r, r.cfg, fun _ => r.cancelled⟩
+  | settle sl by' as pr =>
+    have r := (applyOp_route (op := .settle sl by' as pr) rfl hs).1
+    exact ⟨inv_of_sameGov h r, r.cfg, fun _ => r.cancelled⟩
 
 theorem step_inv {s : State} (op : Op) (h : Inv s) :
     Inv (step s op) ∧ (step s op).cfg = s.cfg ∧ (isCancel op = false → (step s op).cancelled = s.cancelled) := by
